@@ -29,7 +29,7 @@ RULE = (
     "every environment variable that RP2's own files were observed consulting set (names discovered at run time by a hook on "
     "os.environ lookups, e.g. RP2_ENABLE_PROFILER, LOG_LEVEL), on inputs carrying one fault of C12's catalogue (row / structure / "
     "config classes), on hard errors (garbage or binary config, input that is not a zip, missing files, wrongly typed cells: "
-    "exceptions other than RP2ValueError) and on invalid options, with the audit hook recording socket.*, name resolution, subprocess / os.system / exec / "
+    "exceptions other than RP2ValueError), on large inputs (520-1100 rows in one sheet) and on invalid options, with the audit hook recording socket.*, name resolution, subprocess / os.system / exec / "
     "spawn / fork, ctypes.dlopen, webbrowser, file opens for writing, rename / remove / mkdir and imports with their direct "
     "importer; a subset of the same runs under strace -f (network and process syscalls); sha256 of input and config before and "
     "after; listing of cwd and of a decoy $HOME; an import sweep loading every module found by walking the package. "
@@ -41,8 +41,8 @@ ASSUMPTIONS = [
     "strace sees the Python interpreter's own syscalls too: only network-family and process-creation syscalls are judged",
 ]
 SETTINGS: Dict[str, Dict[str, Any]] = {
-    "quick": {"cases": 160, "strace_every": 8, "budget_s": 75, "minimums": {"audited_runs": 120, "strace_runs": 12, "write_events": 400, "import_events": 20000, "modules_swept": 40, "import_sites": 250, "nontrivial": 100, "error_path_runs": 40, "runs_with_rp2_env_variable_set": 12, "tag_env_names_read_by_rp2": 2, "tag_error_types": 3, "tag_fault_class": 10}, "required_tags": {"tag_country": list(COUNTRIES)}},
-    "thorough": {"cases": 1600, "strace_every": 8, "budget_s": 600, "minimums": {"audited_runs": 1200, "strace_runs": 120, "write_events": 4000, "import_events": 200000, "modules_swept": 40, "import_sites": 250, "nontrivial": 1000, "error_path_runs": 400, "runs_with_rp2_env_variable_set": 120, "tag_env_names_read_by_rp2": 2, "tag_error_types": 3, "tag_fault_class": 30}, "required_tags": {"tag_country": list(COUNTRIES)}},
+    "quick": {"cases": 160, "strace_every": 8, "budget_s": 75, "minimums": {"audited_runs": 120, "strace_runs": 12, "write_events": 400, "import_events": 20000, "modules_swept": 40, "import_sites": 250, "nontrivial": 100, "error_path_runs": 40, "runs_with_rp2_env_variable_set": 12, "tag_env_names_read_by_rp2": 2, "tag_error_types": 3, "tag_fault_class": 20, "large_input_runs": 2}, "required_tags": {"tag_country": list(COUNTRIES)}},
+    "thorough": {"cases": 1600, "strace_every": 8, "budget_s": 600, "minimums": {"audited_runs": 1200, "strace_runs": 120, "write_events": 4000, "import_events": 200000, "modules_swept": 40, "import_sites": 250, "nontrivial": 1000, "error_path_runs": 400, "runs_with_rp2_env_variable_set": 120, "tag_env_names_read_by_rp2": 2, "tag_error_types": 3, "tag_fault_class": 28, "large_input_runs": 20}, "required_tags": {"tag_country": list(COUNTRIES)}},
 }
 NETWORK_MODULES = {
     "socket", "_socket", "ssl", "_ssl", "http", "http.client", "http.server", "http.cookiejar", "urllib.request", "urllib3", "ftplib", "smtplib", "poplib", "imaplib",
@@ -70,7 +70,7 @@ def _listing(root: str) -> List[str]:
 
 INPUT_ENV = ("CURRENCY_CODE", "LONG_TERM_CAPITAL_GAINS")  # inputs of the generic country (their faults are C12's classes)
 ENV_VALUES = ("1", "DEBUG", "INFO", "yes")
-KINDS = ("valid", "valid", "valid-env", "documented-fault", "valid", "hard-error", "documented-fault", "invalid-option", "valid-env", "documented-fault")
+KINDS = ("valid", "documented-fault", "valid-env", "documented-fault", "valid", "hard-error", "documented-fault", "invalid-option", "valid-env", "documented-fault", "large-input")
 
 
 def discover_env(ctx: Any) -> List[str]:
@@ -101,14 +101,18 @@ def scenario(rng: Any, index: int, env_names: Optional[List[str]] = None) -> Dic
     country = COUNTRIES[index % len(COUNTRIES)]
     kind = KINDS[(index // len(COUNTRIES)) % len(KINDS)] if index >= len(COUNTRIES) else "valid"
     two_assets = kind == "documented-fault" or rng.random() < 0.5
-    hists = cli_histories(rng, 2 if two_assets else 1, cli_profile(max_events=10, min_events=4))
+    if kind == "large-input":
+        # a sheet with many hundreds of rows (sizes at which caching / batching shortcuts would kick in)
+        hists = cli_histories(rng, 1, cli_profile(max_events=rng.choice((560, 700, 1100)), min_events=520, tie_prob=0.05, gap_style="short", p_in=0.5, p_out=0.3, p_intra=0.2))
+    else:
+        hists = cli_histories(rng, 2 if two_assets else 1, cli_profile(max_events=10, min_events=4))
     args: List[str] = []
     case: Dict[str, Any] = {"country": country, "hists": hists, "kind": kind, "env": {}, "fault": None, "hard": None}
     language = rng.choice(COUNTRY_LANGUAGES[country])
     args += ["-g", language]
     if rng.random() < 0.6:
         args += ["-m", rng.choice(COUNTRY_METHODS[country])]
-    if kind in ("valid", "valid-env"):
+    if kind in ("valid", "valid-env", "large-input"):
         if rng.random() < 0.3:
             args += ["-p", "pre_"]
         if rng.random() < 0.3:
@@ -126,13 +130,14 @@ def scenario(rng: Any, index: int, env_names: Optional[List[str]] = None) -> Dic
             else:
                 case["kind"] = "valid"
     elif kind == "documented-fault":
-        # one fault of C12's catalogue (row / structure / config / option classes), here observed for side effects
+        # one fault of C12's catalogue (row / structure / config classes), here observed for side effects; the class rotates
+        # with the case index so that every class is driven, the position within the class is random
         faults = [f for f in c12.enumerate_faults(hists, "sampled", rng) if f["kind"] != "args"]
-        # config and structure classes are few and rows many: pick the kind first
-        by_kind: Dict[str, List[Dict[str, Any]]] = {}
+        by_class: Dict[str, List[Dict[str, Any]]] = {}
         for f in faults:
-            by_kind.setdefault(f["kind"], []).append(f)
-        case["fault"] = rng.choice(by_kind[rng.choice(sorted(by_kind))])
+            by_class.setdefault(f["class"], []).append(f)
+        classes = sorted(by_class)
+        case["fault"] = rng.choice(by_class[classes[index % len(classes)]])
     elif kind == "hard-error":
         case["hard"] = rng.choice(("ini-garbage-before-first-section", "ods-is-not-a-zip", "ods-missing", "ini-missing", "wrong-cell-type-number-in-text-field", "wrong-cell-type-text-in-timestamp", "ini-binary"))
     else:
@@ -168,7 +173,13 @@ def apply_case(ws: Workspace, case: Dict[str, Any]) -> None:
         holders = sorted({x for h in hists.values() for x in h["holders"]})
         with open(ws.ini, encoding="utf-8") as handle:
             text = handle.read()
-        text = c12.json_config(assets, exchanges, holders) if fault["class"] == "config-deprecated-json" else c12.mutate_ini(text, fault)
+        if fault["class"] == "config-deprecated-json":
+            # a JSON configuration lives in a .json file (no sibling .ini)
+            os.remove(ws.ini)
+            ws.ini = os.path.join(ws.root, "config.json")
+            text = c12.json_config(assets, exchanges, holders)
+        else:
+            text = c12.mutate_ini(text, fault)
         with open(ws.ini, "w", encoding="utf-8") as handle:
             handle.write(text)
     if hard == "ini-garbage-before-first-section":
@@ -265,6 +276,9 @@ def _one(ctx: Any, case: Dict[str, Any], name: str, strace: bool) -> None:
             ctx.tag("tag_fault_class", case["fault"]["class"])
         if case.get("hard"):
             ctx.tag("tag_hard_error", case["hard"])
+        if case["kind"] == "large-input":
+            ctx.count("large_input_runs")
+            ctx.maximum("largest_input_rows", float(max(len(h["rows"]) for h in case["hists"].values())))
         for event in res.audit:
             if event.get("e") == "env-read":
                 ctx.tag("tag_env_names_read_by_rp2", str(event.get("name")))
